@@ -38,10 +38,13 @@ type aval struct {
 	k      constant.Value // scalar
 	fields map[int]*aval  // struct
 	typ    []string       // an abstract reflect.Type: its kinds from the outside in ("ptr", "struct")
+	elems  []*aval        // a slice of known elements (isSlice)
+	isSlice bool
+	m      map[string]*aval // a map with string keys
 }
 
 func (a *aval) String() string {
-	if a == nil {
+	if a == nil || (a.k == nil && a.fields == nil) {
 		return "?"
 	}
 	if a.fields != nil {
@@ -313,6 +316,11 @@ func (in *ncInterp) eval1(fr *ncFrame, v ssa.Value, depth int) *aval {
 		return in.eval(fr, x.X, depth-1)
 	case *ssa.Convert:
 		return in.eval(fr, x.X, depth-1)
+	case *ssa.MakeMap:
+		if !in.concrete {
+			break
+		}
+		return &aval{m: map[string]*aval{}}
 	}
 	return in.fail(fmt.Sprintf("value %T", v))
 }
@@ -345,6 +353,15 @@ func (in *ncInterp) load(fr *ncFrame, addr ssa.Value, depth int) *aval {
 			return base.fields[a.Field]
 		}
 		return in.fail("field address")
+	case *ssa.IndexAddr:
+		base := in.eval(fr, a.X, depth)
+		idx := in.eval(fr, a.Index, depth)
+		if base != nil && base.isSlice && idx != nil && idx.k != nil && idx.k.Kind() == constant.Int {
+			if n, ok := constant.Int64Val(idx.k); ok && n >= 0 && int(n) < len(base.elems) {
+				return base.elems[n]
+			}
+		}
+		return in.fail("element address")
 	}
 	return in.fail("load")
 }
@@ -461,6 +478,13 @@ func (in *ncInterp) run(fn *ssa.Function, args []*aval, start *ssa.BasicBlock, f
 			switch x := ins.(type) {
 			case *ssa.Store:
 				in.store(fr, x)
+			case *ssa.MapUpdate:
+				if in.concrete {
+					mv, kv := in.evalQuiet(fr, x.Map, 14), in.evalQuiet(fr, x.Key, 14)
+					if mv != nil && mv.m != nil && kv != nil && kv.k != nil && kv.k.Kind() == constant.String {
+						mv.m[constant.StringVal(kv.k)] = in.evalQuiet(fr, x.Value, 14)
+					}
+				}
 			case *ssa.Next:
 				// the iteration over a string: (ok, index, rune)
 				rg, ok := x.Iter.(*ssa.Range)
@@ -804,6 +828,24 @@ func (in *ncInterp) pureLibCall(fr *ncFrame, key string, x *ssa.Call, depth int)
 		if s, ok := argStr(0); ok {
 			return &aval{k: constant.MakeInt64(int64(len(s)))}
 		}
+		if a := in.evalQuiet(fr, x.Call.Args[0], depth-1); a != nil {
+			if a.isSlice {
+				return &aval{k: constant.MakeInt64(int64(len(a.elems)))}
+			}
+			if a.m != nil {
+				return &aval{k: constant.MakeInt64(int64(len(a.m)))}
+			}
+		}
+	case "strings.Split":
+		if s, ok := argStr(0); ok {
+			if sep, ok := argStr(1); ok {
+				out := &aval{isSlice: true}
+				for _, part := range strings.Split(s, sep) {
+					out.elems = append(out.elems, &aval{k: constant.MakeString(part)})
+				}
+				return out
+			}
+		}
 	}
 	return nil
 }
@@ -1050,6 +1092,13 @@ func (in *ncInterp) afterEntryByShape(from *ssa.BasicBlock) {
 // of its type from the outside in, and the whole tag string. It returns the fields `omit` and `name` of the
 // parser's result (found by type: the bool and the string field of the result struct).
 func evalTagParser(c *Ctx, tp *ssa.Function, goName string, exported, anonymous bool, typ []string, tag string) (omit bool, name string, why string) {
+	omit, name, _, _, why = evalTagParserFull(c, tp, goName, exported, anonymous, typ, tag)
+	return
+}
+
+// evalTagParserFull also reports the options the parser recorded (the keys of the result's map[string]bool field set
+// to true), if the result has such a field.
+func evalTagParserFull(c *Ctx, tp *ssa.Function, goName string, exported, anonymous bool, typ []string, tag string) (omit bool, name string, opts []string, hasOpts bool, why string) {
 	pkgPath := ""
 	if !exported {
 		pkgPath = "example.com/p"
@@ -1072,11 +1121,11 @@ func evalTagParser(c *Ctx, tp *ssa.Function, goName string, exported, anonymous 
 		if in.failed == "" {
 			in.failed = "no struct result"
 		}
-		return false, "", in.failed
+		return false, "", nil, false, in.failed
 	}
 	st, ok := tp.Signature.Results().At(0).Type().Underlying().(*types.Struct)
 	if !ok {
-		return false, "", "result is not a struct"
+		return false, "", nil, false, "result is not a struct"
 	}
 	omitIdx, nameIdx := -1, -1
 	for k := 0; k < st.NumFields(); k++ {
@@ -1088,7 +1137,7 @@ func evalTagParser(c *Ctx, tp *ssa.Function, goName string, exported, anonymous 
 		}
 	}
 	if omitIdx < 0 || nameIdx < 0 {
-		return false, "", "result struct has no bool/string field"
+		return false, "", nil, false, "result struct has no bool/string field"
 	}
 	if v := r.fields[omitIdx]; v != nil && v.k != nil && v.k.Kind() == constant.Bool {
 		omit = constant.BoolVal(v.k)
@@ -1096,7 +1145,22 @@ func evalTagParser(c *Ctx, tp *ssa.Function, goName string, exported, anonymous 
 	if v := r.fields[nameIdx]; v != nil && v.k != nil && v.k.Kind() == constant.String {
 		name = constant.StringVal(v.k)
 	}
-	return omit, name, ""
+	for k := 0; k < st.NumFields(); k++ {
+		mt, isMap := st.Field(k).Type().Underlying().(*types.Map)
+		if !isMap || !tString(mt.Key()) || !isBoolType(mt.Elem()) {
+			continue
+		}
+		hasOpts = true
+		if v := r.fields[k]; v != nil && v.m != nil {
+			for key, val := range v.m {
+				if val != nil && val.k != nil && val.k.Kind() == constant.Bool && constant.BoolVal(val.k) {
+					opts = append(opts, key)
+				}
+			}
+		}
+		sort.Strings(opts)
+	}
+	return omit, name, opts, hasOpts, ""
 }
 
 func init() {
@@ -1197,6 +1261,31 @@ func ruleTagParserCases(c *Ctx, rule string) {
 			c.R.Check(okv, rule, core.FuncName(fn)+":"+k.label, c.P.Pos(fn.Pos()), "the name the tag gives, as encoding/json reads it",
 				fmt.Sprintf("for the tag %q the tag-name function answers %q: a bare \"-\" does say something about the field (it is left out, and an embedded struct so tagged is not a source of promoted fields), an options-only or invalid name says nothing", k.tag, got))
 		}
+	}
+	// the options: every non-empty element after the first comma, wherever it stands
+	for _, k := range []struct {
+		label, tag string
+		want       []string
+	}{
+		{"options/one", `json:"a,omitempty"`, []string{"omitempty"}},
+		{"options/two", `json:"a,omitempty,string"`, []string{"omitempty", "string"}},
+		{"options/after-an-empty-one", `json:"a,,omitempty"`, []string{"omitempty"}},
+		{"options/no-name", `json:",omitzero"`, []string{"omitzero"}},
+		{"options/trailing-comma", `json:"a,omitempty,"`, []string{"omitempty"}},
+	} {
+		_, _, opts, has, why := evalTagParserFull(c, tp, "F", true, false, []string{"string"}, k.tag)
+		if why != "" || !has {
+			c.R.OK(rule, core.FuncName(tp)+":"+k.label+":not-evaluated", c.P.Pos(tp.Pos()), "the options the tag parser records could not be evaluated on this case ("+why+"): nothing concluded about it")
+			continue
+		}
+		var got []string
+		for _, o := range opts {
+			if o != "" {
+				got = append(got, o)
+			}
+		}
+		c.R.Check(strings.Join(got, ",") == strings.Join(k.want, ","), rule, core.FuncName(tp)+":"+k.label, c.P.Pos(tp.Pos()), "the options recorded are the non-empty elements after the name",
+			fmt.Sprintf("for the tag %q the tag parser records the options %v; encoding/json honours %v (an empty element between commas does not end the list): an omitempty that is not recorded makes the field required although encoding/json leaves it out when empty", k.tag, got, k.want))
 	}
 	for i, k := range cases {
 		got := outs[i]
